@@ -671,6 +671,59 @@ func Reachable(p *load.Program, roots []string) (map[*ssa.Function]bool, []strin
 	return seen, missing
 }
 
+// sortLessContract: f is a function literal whose only use is as the `less` argument of sort.Slice / sort.SliceStable(x, less) and it
+// captures the very variable x is read from: the forms `i >= 0`, `j >= 0`, `len(x) - 1 - i >= 0`, `len(x) - 1 - j >= 0` over its two
+// parameters hold at every call by the contract of package sort. It returns those forms as rendered by lin.Form.String.
+func sortLessContract(f *ssa.Function) map[string]bool {
+	out := map[string]bool{}
+	par := f.Parent()
+	if par == nil || len(f.Params) != 2 {
+		return out
+	}
+	for _, b := range par.Blocks {
+		for _, in := range b.Instrs {
+			mc, ok := in.(*ssa.MakeClosure)
+			if !ok || mc.Fn != ssa.Value(f) || mc.Referrers() == nil {
+				continue
+			}
+			refs := *mc.Referrers()
+			var call *ssa.Call
+			n := 0
+			for _, r := range refs {
+				if _, isD := r.(*ssa.DebugRef); isD {
+					continue
+				}
+				n++
+				call, _ = r.(*ssa.Call)
+			}
+			if n != 1 || call == nil || len(call.Call.Args) != 2 || call.Call.Args[1] != ssa.Value(mc) {
+				return map[string]bool{}
+			}
+			if name := ssau.CalleeName(&call.Call); name != "sort.Slice" && name != "sort.SliceStable" {
+				return map[string]bool{}
+			}
+			mi, ok := call.Call.Args[0].(*ssa.MakeInterface)
+			if !ok {
+				return map[string]bool{}
+			}
+			ld, ok := mi.X.(*ssa.UnOp)
+			if !ok || ld.Op != token.MUL {
+				return map[string]bool{}
+			}
+			for k, bnd := range mc.Bindings {
+				if bnd == ld.X && k < len(f.FreeVars) {
+					x := "len($" + f.FreeVars[k].Name() + ")"
+					for _, prm := range f.Params {
+						out["$"+prm.Name()] = true
+						out["-$"+prm.Name()+" + "+x+" - 1"] = true
+					}
+				}
+			}
+		}
+	}
+	return out
+}
+
 // Run analyses every function reachable from roots and reports the aggregated obligations.
 func (c *Checker) Run(r *report.Report, roots []string) {
 	reach, missing := Reachable(c.P, roots)
@@ -701,8 +754,14 @@ func (c *Checker) Run(r *report.Report, roots []string) {
 		}
 		if !called[f] {
 			// API root (or only called dynamically): residual preconditions are not established by anyone
+			contract := sortLessContract(f)
 			for _, rq := range s.Reqs {
 				st := c.siteByKey(rq.Rule, rq.Site, c.P.Pos(rq.Pos), rq.Desc)
+				if contract[rq.F.String()] {
+					// sort.Slice(x, less) calls less(i, j) with 0 <= i, j < len(x) only
+					st.lifted++
+					continue
+				}
 				st.failed++
 				if st.example == "" {
 					st.example = fmt.Sprintf("precondition %s >= 0 reaches the entry point %s and nothing establishes it", rq.F, load.FuncName(f))
